@@ -269,6 +269,39 @@ pub fn record(a: &Args) -> Report {
       rep.sample(json!({"deal": deal_no, "t": t, "secret_elements": k, "shares": mine.len()}));
     }
   }
+  // one evaluator used for a long time: the sequential iterator keeps yielding x = 1, 2, 3, ...
+  // (checked by TLC through `Share` events for the first and the last few)
+  if a.u64("big", 1) == 1 {
+    let t = 3u32;
+    let elems = vec![BigUint::from(77u32)];
+    let secret: Vec<u8> = elems.iter().flat_map(enc24).collect();
+    let src0 = Src::Cha(rand_chacha::ChaCha8Rng::seed_from_u64(seed ^ 0xabcdef));
+    let mut src = src0.clone();
+    if let Guard::Done(Ok(mut ev)) = guard(|| Sharks(t).dealer_rng(&secret, &mut src).map_err(|e| e.to_string())) {
+      let mut src2 = src0.clone();
+      let draws: Vec<Fp> = (0..2).map(|_| Fp::random(&mut src2)).collect();
+      deal_no += 1;
+      writeln!(f, "{}", json!({"ev":"Deal","t":t,"secret": elems.iter().map(limbs_of_big).collect::<Vec<_>>(),
+        "draws": draws.iter().map(limbs).collect::<Vec<_>>() })).unwrap();
+      let mut kept: Vec<Share> = Vec::new();
+      for i in 1..=600usize {
+        let s = match ev.next() { Some(s) => s, None => break };
+        if i <= 3 || (254..=258).contains(&i) || i >= 598 {
+          let (x, y) = share_json(&s);
+          writeln!(f, "{}", json!({"ev":"Share","deal":deal_no,"kind":"next","idx":i,"x":x,"y":y})).unwrap();
+          nshares_logged += 1;
+          kept.push(s);
+        }
+      }
+      rep.evaluations += 600;
+      let last: Vec<Share> = kept.iter().rev().take(3).cloned().collect();
+      match guard(|| Sharks(t).recover(&last).map_err(|e| e.to_string())) {
+        Guard::Done(Ok(sv)) if sv == secret => { rep.nontrivial("long-iterator".into()); }
+        _ => rep.violation("C06", "Evaluator::next", "long-iterator",
+          "shares 598..600 of one evaluator do not recover the secret".into(), json!({"t": t})),
+      }
+    }
+  }
   // thresholds beyond the TLC oracle: round trip and refusal only (stated bound)
   for t in [200u32, 600] {
     if a.u64("big", 1) == 0 {
